@@ -1086,6 +1086,7 @@ pub fn gen_shape(ch: &mut Chooser, lim: &GenLimits, max_blowup: usize) -> Shape 
     }
     if shape.assertions.is_empty() {
         shape.assertions.push(AssertSpec { kind: AssertKind::Single, col: 0, first: 0, stride: 0, count: 1 });
+        taken.push((0, 0));
     }
     // one shape in 25 (where the trace has the room) pins 256..320 cells by single assertions:
     // more assertions than a one-byte counter holds, spread over every step (round 10)
